@@ -53,6 +53,10 @@ def run(res, tier, seed):
     for m, t in (('GET', p0), ('HEAD', '/'), ('GET', '/missing'), ('GET', p0 + '?x=1')):
         cases.append(K.mk(tree, m, t, hints, entry='proc', kind='server-vocabulary-header'))
         cases.append(K.mk(tree, m, t, hints + [('Range', 'bytes=0-0')], entry='preq', kind='server-vocabulary-header'))
+    # long reflected values (Origin, requested headers): whatever the head costs, the fixed headers are all there
+    for n in (1000, 3000, 3529, 3600, 4040, 5000, 7000, 7212, 7300, 8000, 8029, 8159, 8160, 8192, 9000, 9500):
+        cases.append(K.mk(tree, 'GET', p0, [('Origin', 'http://' + 'o' * n)], entry=rng.choice(['proc', 'preq']), kind='long-reflected-value'))
+        cases.append(K.mk(tree, 'OPTIONS', p0, [('Origin', 'http://o'), ('Access-Control-Request-Method', 'PUT'), ('Access-Control-Request-Headers', 'X-' + 'h' * n)], entry=rng.choice(['proc', 'preq']), kind='long-reflected-value'))
     cases.append(K.mk(tree, 'GET', p0, app='err:' + C.hx('boom'), kind='handler-error'))
     cases.append(K.mk(tree, 'GET', p0, raw=b'\xff\xfe', kind='unparsable'))
     batches.append((tree, cases))
